@@ -178,7 +178,7 @@ func runC01(c *fw.Ctx) {
 	// (b) typed random programs, 10% with an injected fault
 	r := c.Rand("typed")
 	pg := gen.NewPG(r, gen.ProgOpts{Faults: 10, MaxDepth: 7})
-	for i := 0; i < c.PerShard(c.Pick(40000, 1500000)); i++ {
+	for i := 0; i < c.PerShard(c.Pick(200000, 4000000)); i++ {
 		forms := pg.Program()
 		if i < 2 {
 			c.Sample(progText(forms))
